@@ -771,8 +771,124 @@ func main() {
 		}
 	}
 
+	// ---- 3. a NON-constant operand followed by a chain of literals ----
+	// x op c1 op c2 parses as (x op c1) op c2: the two literals never meet in
+	// one node, so nothing may be folded - and nothing may be reassociated,
+	// because x may be a Float (every operation rounds) or a String (`+`
+	// concatenates).  x: float / string / int captures and float metric reads;
+	// lines chosen so that the association order is observable.
+	type operand struct {
+		name, pat, x, pre string
+		lines            []string
+		str              bool
+	}
+	floatLines := []string{"v 1.1", "v 0.1", "v 9007199254740992.0", "v 2.675", "v 0.7", "n"}
+	operands := []operand{
+		{"float-capture", `/^v (\d+\.\d+)$/`, "$1", "", floatLines, false},
+		{"named-float-capture", `/^v (?P<f>\d+\.\d+)$/`, "$f", "", floatLines, false},
+		{"float-metric-read", `/^v (\d+\.\d+)$/`, "fm", "fm = $1\n  ", floatLines, false},
+		{"int-capture", `/^v (\d+)/`, "$1", "", []string{"v 9223372036854775807", "v 7", "n"}, false},
+		{"string-capture", `/^s (\S+)$/`, "$1", "", []string{"s ab", "s 12", "n"}, true},
+	}
+	type chainPos struct {
+		name string
+		mk   func(o operand, e string) string
+	}
+	decls := func(o operand, ds ...string) string {
+		d := strings.Join(ds, "\n") + "\n"
+		if o.x == "fm" {
+			d += "gauge fm\n"
+		}
+		return d
+	}
+	chainPositions := []chainPos{
+		{"assign", func(o operand, e string) string {
+			if o.str {
+				return decls(o, "text t") + o.pat + " {\n  " + o.pre + "t = " + e + "\n}\n"
+			}
+			return decls(o, "gauge g") + o.pat + " {\n  " + o.pre + "g = " + e + "\n}\n"
+		}},
+		{"add-assign", func(o operand, e string) string {
+			return decls(o, "gauge g") + o.pat + " {\n  " + o.pre + "g += " + e + "\n}\n"
+		}},
+		{"index", func(o operand, e string) string {
+			return decls(o, "counter ck by k") + o.pat + " {\n  " + o.pre + "ck[" + e + "]++\n}\n"
+		}},
+		{"builtin-string", func(o operand, e string) string {
+			return decls(o, "text t") + o.pat + " {\n  " + o.pre + "t = string(" + e + ")\n}\n"
+		}},
+		{"builtin-len", func(o operand, e string) string {
+			return decls(o, "gauge g") + o.pat + " {\n  " + o.pre + "g = len(string(" + e + "))\n}\n"
+		}},
+		{"condition", func(o operand, e string) string {
+			if o.str {
+				return decls(o, "counter c") + o.pat + " {\n  " + o.pre + e + " == \"ab12\" {\n    c++\n  }\n}\n"
+			}
+			return decls(o, "counter c") + o.pat + " {\n  " + o.pre + e + " > 3960 {\n    c++\n  }\n}\n"
+		}},
+		{"nested-arith", func(o operand, e string) string {
+			return decls(o, "gauge g") + o.pat + " {\n  " + o.pre + "g = 3 - (" + e + ") * 2\n}\n"
+		}},
+		{"else-block", func(o operand, e string) string {
+			return decls(o, "gauge g") + o.pat + " {\n  " + o.pre + "/zz/ {\n  } else {\n    g = " + e + "\n  }\n}\n"
+		}},
+		{"decorator", func(o operand, e string) string {
+			return decls(o, "gauge g") + "def d {\n  " + o.pat + " {\n    next\n  }\n}\n@d {\n  " + o.pre + "g = " + e + "\n}\n"
+		}},
+	}
+	pairs := [][2]string{{"60", "60"}, {"1", "2"}, {"7", "3"}, {"2.5", "4"}}
+	if a.Thorough() {
+		pairs = append(pairs, [2]string{"9223372036854775807", "2"}, [2]string{"-1", "-1"}, [2]string{"3", "0.5"}, [2]string{"1000000", "1000000"})
+	}
+	for _, o := range operands {
+		for _, op := range ops {
+			for pi, pr := range pairs {
+				mkLit := func(t string) *E {
+					if strings.Contains(t, ".") {
+						f, _ := strconv.ParseFloat(t, 64)
+						return lit(Lit{IsF: true, F: f})
+					}
+					i, _ := strconv.ParseInt(t, 10, 64)
+					return lit(Lit{I: i})
+				}
+				x := &E{Leaf: o.x}
+				shapes := []*E{
+					bin(op, bin(op, x, mkLit(pr[0])), mkLit(pr[1])),                            // (x op c1) op c2
+					bin(op, bin(op, mkLit(pr[0]), x), mkLit(pr[1])),                            // (c1 op x) op c2
+					bin(op, bin(op, x, mkLit(pr[0])), bin(op, mkLit(pr[1]), lit(Lit{I: 2}))), // constants on both sides
+				}
+				for si, ex := range shapes {
+					if si > 0 && pi > 0 && !a.Thorough() {
+						continue
+					}
+					tb := newTabs()
+					_, zeroDiv := ex.Const(tb)
+					e := ex.Src()
+					if si == 0 {
+						// the unparenthesised spelling: the grammar is left associative
+						e = o.x + " " + op + " " + pr[0] + " " + op + " " + pr[1]
+					}
+					cls := "chain/" + o.name + op
+					for ci, cp := range chainPositions {
+						src := cp.mk(o, e)
+						ro, rn := g.checkProgram("chain/"+cp.name, src, o.lines, zeroDiv, false, cls)
+						if ro.CompileErr == "" && rn.CompileErr == "" {
+							out.Count("chain-runs/" + o.name)
+						} else {
+							out.Count("chain-rejected/" + o.name)
+						}
+						if ci == 0 {
+							g.treeCases(src, tb)
+						}
+					}
+					out.Count("chain-operand/" + o.name)
+				}
+			}
+		}
+	}
+
 	out.Extra["programs_compiled_both_ways"] = g.progs
-	out.Flush("bin: opt.Optimise on BinaryExpr{op, lit, lit} and the unoptimised program `g = lit op lit` in the real VM, for every pair of the literal table and all six operators (exhaustive), non-trivial when the fold produced a literal and the VM produced a value; tree: AST before/after each optimiser pass of generated programs (every syntactic position), non-trivial when the optimiser rewrote the tree or reported an error", true)
+	out.Flush("bin: opt.Optimise on BinaryExpr{op, lit, lit} and the unoptimised program `g = lit op lit` in the real VM, for every pair of the literal table and all six operators (exhaustive), non-trivial when the fold produced a literal and the VM produced a value; chain: a non-constant Float/String/Int operand followed by two literals under one operator, in every position, compiled both ways and run on lines where the association order shows; tree: AST before/after each optimiser pass of generated programs (every syntactic position), non-trivial when the optimiser rewrote the tree or reported an error", true)
 }
 
 func replay(path string) {
